@@ -332,17 +332,19 @@ def corrupt(rng, data, enc):
     return how, b"\n".join(lines)
 
 
-def seeds_for(rng, cp):
-    """The special character at the END of a password, alone, doubled at the end, and once at a random place."""
+def seeds_for(rng, cp, dominant=False):
+    """The special character at the END of a password, alone, doubled at the end, and once at a random place; with
+    `dominant` the one-character value is the most frequent of its list, i.e. the FIRST line of its terminal file."""
     c = chr(cp)
     w, w2 = rng.choice(T.WORDS[:12]), rng.choice(T.WORDS[:12])
-    return [(w + c, rng.choice([1, 2])), (c, 1), (w2 + c + c, 1), (T.seed_with_char(rng, None, cp), 1), (c + w2, 1)]
+    return [(w + c, rng.choice([1, 2])), (c, 1), (w2 + c + c, 1), (T.seed_with_char(rng, None, cp), 1),
+            (c + w2, 40 if dominant else 1)]
 
 
 def gen_run(rng, i, enc, pick):
     entries = T.gen_entries(rng, enc, n_distinct=rng.randint(5, 12))
-    for cp in pick:
-        for e in seeds_for(rng, cp):
+    for j, cp in enumerate(pick):
+        for e in seeds_for(rng, cp, dominant=(j == 0 and i % 2 == 0)):
             entries.insert(rng.randint(0, len(entries)), e)
     # non-ASCII words long enough to enter the OMEN n-grams
     entries.append((rng.choice(T.NONASCII[enc]) + rng.choice(T.WORDS), rng.choice([1, 2, 3])))
@@ -377,7 +379,10 @@ def run(ctx):
     C = T.char_classes()
     lbset, wsset, fmtset = set(C["linebreak"]), set(C["whitespace"]), set(C["format"])
     # minimal targeted probes first (smallest replays): R10 and R11
-    probes = [("utf-8", [("abc\u2029", 2), ("password1", 3), ("love2019", 1)], 0.6), ("latin-1", [("caf\u00e91", 3), ("caf\u00e9teria", 2), ("password", 2)], 0.6)]
+    probes = [("utf-8", [("abc\u2029", 2), ("password1", 3), ("love2019", 1)], 0.6), ("latin-1", [("caf\u00e91", 3), ("caf\u00e9teria", 2), ("password", 2)], 0.6),
+              # a training file that starts with a byte order mark, read with -e utf-8: U+FEFF is a legal character of the
+              # first password and heads its terminal list
+              ("utf-8", [("\ufeffpassword1", 5), ("password1", 3), ("love2019", 1), ("\ufeff", 2)], 0.6)]
     plan = []
     todo = {enc: [c for c in T.special_chars_for(enc, rng, n_format=4)] for enc in T.ENCODINGS}
     weights = {"utf-8": 0.45, "latin-1": 0.18, "cp1251": 0.18, "cp1252": 0.19}
